@@ -13,7 +13,7 @@ namespace Lattigo.CKKS
 theorem addElt_meta {P : Params} {sub : Bool} {a b o : Meta} {r : Res}
     (h : addElt P sub a b o = .ok r) :
     r.md.level = min (min a.level b.level) o.level ∧
-    r.md.degree = max (max a.degree b.degree) o.degree ∧
+    r.md.degree = max a.degree b.degree ∧
     r.md.scale = a.scale.max b.scale ∧
     r.md.logSlots = max a.logSlots b.logSlots := by
   unfold addElt at h
@@ -21,21 +21,29 @@ theorem addElt_meta {P : Params} {sub : Bool} {a b o : Meta} {r : Res}
   · cases h
   · cases h; exact ⟨rfl, rfl, rfl, rfl⟩
 
-/-- the alignment multipliers: the operand with the smaller scale is multiplied by the integer part of
-    the (128-bit rounded) quotient of the scales, the other one by `1`. -/
+/-- the alignment multipliers `(k0, k1)`: the operand with the smaller scale is multiplied by the integer
+    part of the (128-bit rounded) quotient of the scales, the other one by `1`. -/
+def alignMult (P : Params) (a b : Meta) : Int × Int :=
+  match a.scale.cmp b.scale with
+  | .gt => (1, bigIntConst P (sdiv a.scale b.scale).toNat)
+  | .lt => (bigIntConst P (sdiv b.scale a.scale).toNat, 1)
+  | .eq => (1, 1)
+
+/-- **per-component effect of Add/Sub**: component `i` of the result is
+    `k0·op0.c_i ± k1·op1.c_i` up to the smaller degree and the *scale-matched* operand of higher degree
+    alone above it (`k0·op0.c_i`, resp. `±k1·op1.c_i`); nothing of the receiver survives. -/
 theorem addElt_eff {P : Params} {sub : Bool} {a b o : Meta} {r : Res}
     (h : addElt P sub a b o = .ok r) :
-    r.eff =
-      (match a.scale.cmp b.scale with
-        | .gt => [centerMod 1 (P.bigQ r.md.level),
-                  centerMod (sgn sub (bigIntConst P (sdiv a.scale b.scale).toNat)) (P.bigQ r.md.level)]
-        | .lt => [centerMod (bigIntConst P (sdiv b.scale a.scale).toNat) (P.bigQ r.md.level),
-                  centerMod (sgn sub 1) (P.bigQ r.md.level)]
-        | .eq => [centerMod 1 (P.bigQ r.md.level), centerMod (sgn sub 1) (P.bigQ r.md.level)]) := by
+    r.eff = perComp (max a.degree b.degree) (fun i =>
+      if i ≤ min a.degree b.degree then
+        [centerMod (alignMult P a b).1 (P.bigQ r.md.level), centerMod (sgn sub (alignMult P a b).2) (P.bigQ r.md.level), 0]
+      else if b.degree < a.degree then [centerMod (alignMult P a b).1 (P.bigQ r.md.level), 0, 0]
+      else [0, centerMod (sgn sub (alignMult P a b).2) (P.bigQ r.md.level), 0]) := by
   unfold addElt at h
   split at h
   · cases h
   · cases h
+    unfold alignMult
     cases hc : a.scale.cmp b.scale <;> simp
 
 theorem addElt_err_iff {P : Params} {sub : Bool} {a b o : Meta} :
@@ -107,8 +115,8 @@ theorem mulScalar_meta {P : Params} {a o : Meta} {re im : SD} {r : Res}
     (h : mulScalar P a o re im = .ok r) :
     ∃ s, scalarScale P (min a.level o.level) re im = .ok s ∧
       r.md = ⟨min a.level o.level, a.degree, smul a.scale s, a.logSlots⟩ ∧
-      r.eff = [centerMod (consts P re im s).1 (P.bigQ (min a.level o.level)),
-               centerMod (consts P re im s).2 (P.bigQ (min a.level o.level))] := by
+      r.eff = perComp a.degree (fun _ => [centerMod (consts P re im s).1 (P.bigQ (min a.level o.level)),
+               centerMod (consts P re im s).2 (P.bigQ (min a.level o.level))]) := by
   unfold mulScalar at h
   cases hs : scalarScale P (min a.level o.level) re im with
   | error e => simp [hs, bind, Except.bind] at h
@@ -237,7 +245,7 @@ theorem setScale_scale {P : Params} {a : Meta} {t : Dy} {r : Res} (h : setScale 
 
 theorem scaleUp_meta {P : Params} {a o : Meta} {s : Dy} {r : Res} (h : scaleUp P a o s = .ok r) :
     r.md = ⟨min a.level o.level, a.degree, smul a.scale s, a.logSlots⟩ ∧
-    r.eff = [centerMod (bigIntConst P s.toU64) (P.bigQ (min a.level o.level))] := by
+    r.eff = perComp a.degree (fun _ => [centerMod (bigIntConst P s.toU64) (P.bigQ (min a.level o.level))]) := by
   unfold scaleUp at h; cases h; exact ⟨rfl, rfl⟩
 
 theorem dropLevel_meta {a : Meta} {n : Nat} {r : Res} (h : dropLevel a n = .ok r) :
@@ -308,6 +316,15 @@ theorem mulThenAddScalar_meta {P : Params} {al : Alias} {a o : Meta} {re im : SD
       unfold mtaScale at hv
       simp [hgt] at hv
 
+theorem mtaEltScale_scale {P : Params} {level : Nat} {a b o : Meta} {v : Int × Dy}
+    (h : mtaEltScale P level a b o = .ok v) : v.2 = o.scale ∨ v.2 = smul a.scale b.scale := by
+  unfold mtaEltScale at h
+  simp only [bind, Except.bind, pure, Except.pure] at h
+  repeat' split at h
+  all_goals first
+    | (cases h; first | exact Or.inl rfl | exact Or.inr rfl)
+    | cases h
+
 theorem mulThenAddElt_meta {P : Params} {relin : Bool} {al : Alias} {a b o : Meta} {r : Res}
     (h : mulThenAddElt P relin al a b o = .ok r) :
     al = .fresh ∧ 0 < a.degree + b.degree ∧ a.degree + b.degree ≤ 2 ∧
@@ -315,13 +332,13 @@ theorem mulThenAddElt_meta {P : Params} {relin : Bool} {al : Alias} {a b o : Met
     r.md.logSlots = max a.logSlots b.logSlots ∧
     (r.md.scale = o.scale ∨ r.md.scale = smul a.scale b.scale) := by
   unfold mulThenAddElt at h
-  simp only [bind, Except.bind, pure, Except.pure] at h
+  simp only [bind, Except.bind] at h
   repeat' split at h
   all_goals first
     | (cases h
        refine ⟨?_, by omega, by omega, rfl, rfl, ?_⟩
        · simpa using ‹¬(al != Alias.fresh) = true›
-       · first | exact Or.inl rfl | exact Or.inr rfl)
+       · exact mtaEltScale_scale ‹_›)
     | cases h
 
 end Lattigo.CKKS
